@@ -51,6 +51,12 @@ func e1Specs(prop, tier string) []engines.E1Spec {
 			kd = 5
 		}
 		specs = append(specs, engines.E1Spec{Name: "K-kind-reuse/none/rs20", Cfg: cfgNone, Alphabet: engines.KindReuseAlphabet(), Depth: kd, Oracles: or})
+		// names that end in the suffix the pipeline adds to content records
+		specs = append(specs, engines.E1Spec{Name: "X-suffix/gzip/rs20", Cfg: rig.Config{RecordSize: 20, Compression: "gzip"}, Alphabet: engines.SuffixAlphabet(".gz"), Depth: 3, Oracles: or})
+		if tier != "quick" {
+			specs = append(specs, engines.E1Spec{Name: "X-suffix/zstandard+age/rs20", Cfg: rig.Config{RecordSize: 20, Compression: "zstandard", Encryption: "age"}, Alphabet: engines.SuffixAlphabet(".zst.age"), Depth: 3, Oracles: or},
+				engines.E1Spec{Name: "X-suffix/lz4/rs1", Cfg: rig.Config{RecordSize: 1, Compression: "lz4"}, Alphabet: engines.SuffixAlphabet(".lz4"), Depth: 3, Oracles: or})
+		}
 		specs = append(specs, engines.E1Spec{Name: "M-bigmove/none/rs20", Cfg: cfgNone, Setup: engines.BigMoveSetup(), Alphabet: engines.BigMoveAlphabet(), Depth: map[bool]int{true: 3, false: 4}[tier == "quick"], Oracles: or})
 		if prop == "C02" {
 			d := 2
@@ -197,7 +203,9 @@ func e1Specs(prop, tier string) []engines.E1Spec {
 		out := []engines.E1Spec{}
 		shapes := engines.AllShapes()
 		follow := []ops.Op{{K: "put", P: "/new", C: "added"}, {K: "mkdir", P: "/newdir"}, {K: "put", P: "/d0/added", C: "T513:1"}, {K: "remove", P: "/f0"}, {K: "rename", P: "/f0", Q: "/renamed"},
-			{K: "removeall", P: "/d0"}, {K: "chmod", P: "/f0", N: 0o600}, {K: "put", P: "/f0", C: "overwritten"}, {K: "rename", P: "/d0", Q: "/dmoved"}}
+			{K: "removeall", P: "/d0"}, {K: "chmod", P: "/f0", N: 0o600}, {K: "put", P: "/f0", C: "overwritten"}, {K: "rename", P: "/d0", Q: "/dmoved"},
+			// metadata-only updates and a rename of original members that have content (f0 is the empty one)
+			{K: "chmod", P: "/d1/f0", N: 0o600}, {K: "chtimes", P: "/f1"}, {K: "rename", P: "/d1/f0", Q: "/d1/fmoved"}, {K: "chmod", P: "/f1", N: 0o600}}
 		for si, sh := range shapes {
 			for _, format := range []string{"ustar", "pax", "gnu"} {
 				for _, style := range []string{"./", "/", "top/"} {
